@@ -14,16 +14,11 @@ RULE = ('alphabet: every character of the default encoder table plus printable A
 EXHAUSTIVE = {'quick': False, 'thorough': False}
 ASSUMPTIONS = ['inputs are NFC-normalised by the harness (unicodedata is trusted)',
                'the non-invertible baseline is a committed list (noninvertible_baseline.json, regenerated into Gen/GenBaseline.v): the documented many-to-one approximations']
-PARTIAL = ['C08_roundtrip_unbounded_partial: strings of ANY length round-trip when every character is covered (cover_ok: a decidable '
-           'per-character condition; 574 of the 1314 alphabet characters under each of the 4 x 2 configurations - all printable ASCII of the '
-           'alphabet except % < >, newline, accented Latin letters, symbol macros - and every character without a rule), there is no ligature '
-           'pair and every whitespace run has at most one newline or exactly two adjacent ones. NOT proved: the DESIGN statement '
-           'C08_roundtrip for strings containing an uncovered alphabet character (%, <, >, U+00A0, the characters rendered through '
-           '\\ensuremath / format strings / callables other than accents, which C03\'s core sublanguage does not contain): for those only '
-           'C08_roundtrip_partial (length <= 1 over the alphabet, length 2 over the class representatives), C08_single_characters, '
-           'C08_class_pairs hold; longer strings with such characters are covered by the correspondence and the oracle on the real code only. '
-           'Proved for all strings: the encoder half (C08_encoding_is_chunkwise / C08_encoding_concat / C08_roundtrip_is_decode_of_chunks) '
-           'and C08_decode_of_documents (C02 x C03 for the extended grammar).']
+PARTIAL = ['C08_roundtrip_partial is kept as a bounded instance only: the unbounded DESIGN statement is now the theorem '
+           'C08_roundtrip_unbounded (every string over the alphabet, any length, 4 schemes x 2 policies, no ligature pair, no '
+           'paragraph-whitespace run = the known finding) and C08_roundtrip_covered (any protection, any covered characters). '
+           'Nothing of the property as configured remains unproved at model level; the exclusion par_clean2 is exactly the known '
+           'finding (C08_paragraph_whitespace_refuted).']
 REFUTED = ['C08_paragraph_whitespace_refuted: the unbounded round trip is false on whitespace runs with two or more newlines other than the bare blank line (known finding paragraph-whitespace-collapsed; the bare paragraph break round-trips: C08_paragraph_break_roundtrips)']
 CASE_TIMEOUT = 10.0
 PROTS = ['none', 'braces', 'braces-all', 'braces-almost-all', 'braces-after-macro']
